@@ -716,3 +716,50 @@ pub fn invariant_variants(rng: &mut Rng) -> String {
         _ => alt,
     }
 }
+
+/// Branches in *root position* (nothing to their left) whose first tokens are rooted in various
+/// ways and nesting depths, with every bound form: the shapes on which rootedness — of the glob,
+/// of its encoding and of what the rule checker admits — depends.
+pub fn root_position_shape(rng: &mut Rng) -> String {
+    const ROOTED: &[&str] = &["/a", "/", "/**/a", "/**", "/*", "/a/b", "/**/", "/a*"];
+    const UNROOTED: &[&str] = &["a", "b/c", "*", "**/a", "a/**", "x*"];
+    const BNDS: &[&str] = &["", ":0,", ":1,", ":2,", ":0,1", ":0,3", ":1,2", ":1,3", ":2", ":1", ":0,2", ":3,5"];
+    const RIGHT: &[&str] = &["", "", "x", "/x", "b/**", "*", "/**", "{e,f}"];
+    fn branch(rng: &mut Rng, depth: usize, out: &mut String) {
+        if depth == 0 {
+            out.push_str(rng.pick_str(ROOTED));
+            return;
+        }
+        if rng.chance(1, 2) {
+            out.push('<');
+            branch(rng, depth - 1, out);
+            if rng.chance(1, 4) {
+                out.push_str(rng.pick_str(&["a", "/", "*"]));
+            }
+            out.push_str(rng.pick_str(BNDS));
+            out.push('>');
+        }
+        else {
+            out.push('{');
+            let n = rng.range(1, 3);
+            let unrooted_at = if rng.chance(1, 3) { rng.below(n) } else { usize::MAX };
+            for j in 0..n {
+                if j > 0 {
+                    out.push(',');
+                }
+                if j == unrooted_at {
+                    out.push_str(rng.pick_str(UNROOTED));
+                }
+                else {
+                    branch(rng, depth - 1, out);
+                }
+            }
+            out.push('}');
+        }
+    }
+    let mut e = String::new();
+    let depth = rng.range(1, 3);
+    branch(rng, depth, &mut e);
+    e.push_str(rng.pick_str(RIGHT));
+    e
+}
